@@ -252,6 +252,32 @@ fn run(name: &str, j: &J) -> Result<bool, String> {
             } }
             Ok(true)
         }
+        // C06: the propagated range of an aggregate over a list type must contain the aggregate of every list of the type
+        "c06_aggregate_range" | "c06_aggregate_search" => {
+            use qrlew::data_type::function as fun;
+            let eval = |agg: &str, lo: f64, hi: f64, vals: &[f64]| -> Result<Option<String>, String> {
+                let f: Box<dyn fun::Function> = match agg { "var" => Box::new(fun::var()), "std" => Box::new(fun::std()), "mean" => Box::new(fun::mean()), other => return Err(format!("agg {}", other)) };
+                let n = vals.len() as i64;
+                let list_t = DataType::list(DataType::float_interval(lo, hi), n as usize, n as usize);
+                let img = f.super_image(&list_t).map_err(|e| e.to_string())?;
+                let v = f.value(&Value::list(vals.iter().map(|x| Value::float(*x)))).map_err(|e| e.to_string())?;
+                if img.contains(&v) { Ok(None) } else { Ok(Some(format!("{}({:?}) = {} is not in {}({}) = {}", agg, vals, v, agg, list_t, img))) }
+            };
+            if name == "c06_aggregate_range" {
+                let vals: Vec<f64> = j["values"].as_array().unwrap().iter().map(|x| x.as_f64().unwrap()).collect();
+                let r = eval(j["agg"].as_str().unwrap(), f(j, "lo"), f(j, "hi"), &vals)?;
+                if let Some(m) = &r { println!("  {}", m); }
+                return Ok(r.is_none());
+            }
+            for agg in ["mean", "var", "std"] { for (lo, hi) in [(0.0, 1.0), (-1.0, 2.0), (0.0, 10.0)] { for vals in [vec![lo, hi], vec![lo, lo], vec![lo, hi, hi], vec![lo, (lo + hi) / 2.0, hi]] {
+                if let Some(m) = eval(agg, lo, hi, &vals)? {
+                    println!("  {}", m);
+                    println!("QX-WITNESS {}", serde_json::json!({"agg": agg, "lo": lo, "hi": hi, "values": vals}));
+                    return Ok(false);
+                }
+            } } }
+            Ok(true)
+        }
         _ => Err(format!("unknown replay `{}`", name)),
     }
 }
